@@ -20,8 +20,8 @@ PID = "C40"
 LEVEL = "translation_validation"
 LEAN = ["SaVerif.Props.C40"]
 META = {
-    "text": "Lean theorems about the relational meaning of the loader plans (not about strategies.py itself): for every primary result with distinct keys, every child table, every relationship ordering that commutes with filtering (instance: stable insertion sort, sortByK_filter_comm) and every positive IN chunk size, joined (LEFT OUTER JOIN rows + identity de-duplication + append in row order), subquery (primary query as subquery JOIN child) and selectin (IN chunks) build exactly the lazily loaded graph - same parents, collection contents and order (strategies_agree, selectin_eq_lazy, subquery_eq_lazy, joined_eq_lazy, joined_wrapped_limit); without the subquery wrap LIMIT truncates collections (joined_limit_wrap_needed, proved counterexample); many-to-one IN loading equals per-row lookup (m2o_selectin_eq_lazy); selectin statement count = ceil(n/chunk). The nest decision is transcribed (shouldNest) and compared with what the property needs (nestNeeded): equal without fetch(), proved different with fetch() alone (should_nest_misses_fetch, finding F23). The ORM is tied to this by translation validation on SQLite: generated mappings (single-table polymorphic B/BSub targets, a query_expression attribute), data, queries (LIMIT / OFFSET / FETCH each alone and combined, DISTINCT, join+distinct, select() and legacy Query slicing) and every assignment of loader strategies along A.bs / B.cs / C.ds (three levels) / B.a / A.tags plus column options, with_expression and an untriggered raiseload; object-graph snapshots are compared with the all-lazy baseline and with the model's graph, and statement counts / wrap presence / IN chunk sizes with the model's plan.",
-    "note": "translation_validation: the theorems are about the relational model of each plan; that strategies.py / context.py / loading.py emit and assemble those plans is only checked by execution on SQLite. Relationships without ORDER BY are compared as multisets. yield_per is exercised only with strategies that permit it; noload is excluded by the property; joined-table inheritance targets are C42's. FETCH is executed on SQLite by rewriting `[OFFSET ? ROWS] FETCH FIRST ? ROWS ONLY` to `LIMIT` in a cursor event. Known findings F23 (joined eager collection + fetch() alone is not wrapped), F24 (AssertionError reading an unset query_expression after load_only + subqueryload + eager backref), F25 (subqueryload + fetch() alone: embedded query loses its ORDER BY).",
+    "text": "Lean theorems about the relational meaning of the loader plans (not about strategies.py itself): for every primary result with distinct keys, every child table, every relationship ordering that commutes with filtering (instance: stable insertion sort, sortByK_filter_comm) and every positive IN chunk size, joined (LEFT OUTER JOIN rows + identity de-duplication + append in row order), subquery (primary query as subquery JOIN child) and selectin (IN chunks) build exactly the lazily loaded graph - same parents, collection contents and order (strategies_agree, selectin_eq_lazy, subquery_eq_lazy, joined_eq_lazy, joined_wrapped_limit); without the subquery wrap LIMIT truncates collections (joined_limit_wrap_needed, proved counterexample); many-to-one IN loading equals per-row lookup (m2o_selectin_eq_lazy); selectin statement count = ceil(n/chunk). The nest decision is transcribed (shouldNest) and compared with what the property needs (nestNeeded): equal for every flag combination incl. fetch() (should_nest_complete; the rule before fix 63056e6 missed fetch() alone: should_nest_misses_fetch, F23, now fixed). The ORM is tied to this by translation validation on SQLite: generated mappings (single-table polymorphic B/BSub targets, a query_expression attribute), data, queries (LIMIT / OFFSET / FETCH each alone and combined, DISTINCT, join+distinct, select() and legacy Query slicing) and every assignment of loader strategies along A.bs / B.cs / C.ds (three levels) / B.a / A.tags plus column options, with_expression and an untriggered raiseload; object-graph snapshots are compared with the all-lazy baseline and with the model's graph, and statement counts / wrap presence / IN chunk sizes with the model's plan.",
+    "note": "translation_validation: the theorems are about the relational model of each plan; that strategies.py / context.py / loading.py emit and assemble those plans is only checked by execution on SQLite. Relationships without ORDER BY are compared as multisets. yield_per is exercised only with strategies that permit it; noload is excluded by the property; joined-table inheritance targets are C42's. FETCH is executed on SQLite by rewriting `[OFFSET ? ROWS] FETCH FIRST ? ROWS ONLY` to `LIMIT` in a cursor event. Known finding F24 (AssertionError reading an unset query_expression after load_only + subqueryload + eager backref). F23 (joined eager collection + fetch() alone not wrapped) and F25 (subqueryload + fetch() alone: embedded query loses its ORDER BY) were found here and are fixed in /repo (63056e6, a88c250); their keys are still computed so that a regression reports as a violation.",
     "technique": "Lean 4 proofs about list-relational query plans + differential execution of all loader-strategy assignments on SQLite",
     "design_ref": "DESIGN.md §3 C40, C41, C42",
 }
